@@ -1,0 +1,190 @@
+// Verification hooks (deterministic simulation); compiled only with `--cfg maidsafe_safe_network_verif`.
+// Pass-throughs that let an external harness act as the event loop of a `SwarmDriver` that is never polled.
+
+use super::*;
+use crate::cmd::{LocalSwarmCmd, NetworkSwarmCmd};
+use crate::record_store_api::UnifiedRecordStore;
+use ant_protocol::storage::RecordType;
+
+impl NetworkBuilder {
+    /// `build_node` without `listen_on` and with a caller-chosen capacity / cache size.
+    /// The store configuration is derived exactly as `build_node` derives it.
+    pub fn verif_build_node(
+        self,
+        root_dir: PathBuf,
+        max_records: Option<usize>,
+        records_cache_size: Option<usize>,
+    ) -> Result<(Network, mpsc::Receiver<NetworkEvent>, SwarmDriver)> {
+        let mut kad_cfg = kad::Config::new(KAD_STREAM_PROTOCOL_ID);
+        let _ = kad_cfg
+            .set_kbucket_inserts(libp2p::kad::BucketInserts::Manual)
+            .set_replication_interval(None)
+            .set_publication_interval(None)
+            .set_max_packet_size(MAX_PACKET_SIZE)
+            .set_replication_factor(REPLICATION_FACTOR)
+            .set_query_timeout(KAD_QUERY_TIMEOUT_S)
+            .disjoint_query_paths(true)
+            .set_record_ttl(None)
+            .set_periodic_bootstrap_interval(None)
+            .set_provider_publication_interval(None);
+
+        let storage_dir_path = root_dir.join("record_store");
+        check_and_wipe_storage_dir_if_necessary(
+            root_dir.clone(),
+            storage_dir_path.clone(),
+            get_network_id(),
+        )?;
+        if let Err(error) = std::fs::create_dir_all(&storage_dir_path) {
+            return Err(NetworkError::FailedToCreateRecordStoreDir {
+                path: storage_dir_path,
+                source: error,
+            });
+        }
+        let peer_id = PeerId::from(self.keypair.public());
+        let encryption_seed: [u8; 16] = peer_id
+            .to_bytes()
+            .get(..16)
+            .expect("Cann't get encryption_seed from keypair")
+            .try_into()
+            .expect("Cann't get 16 bytes from serialised key_pair");
+        let mut store_cfg = NodeRecordStoreConfig {
+            max_value_bytes: MAX_PACKET_SIZE,
+            storage_dir: storage_dir_path,
+            historic_quote_dir: root_dir.clone(),
+            encryption_seed,
+            ..Default::default()
+        };
+        if let Some(max_records) = max_records {
+            store_cfg.max_records = max_records;
+        }
+        if let Some(size) = records_cache_size {
+            store_cfg.records_cache_size = size;
+        }
+
+        self.build(
+            kad_cfg,
+            Some(store_cfg),
+            false,
+            ProtocolSupport::Full,
+            #[cfg(feature = "upnp")]
+            false,
+        )
+    }
+}
+
+/// What the harness may know about an in-flight `get_record`.
+#[derive(Debug, Clone)]
+pub struct VerifPendingGet {
+    pub query_id: QueryId,
+    pub key: RecordKey,
+    pub waiting_callers: usize,
+    pub versions: usize,
+}
+
+impl SwarmDriver {
+    pub fn verif_handle_local_cmd(&mut self, cmd: LocalSwarmCmd) -> Result<()> {
+        self.handle_local_cmd(cmd)
+    }
+
+    pub fn verif_handle_network_cmd(&mut self, cmd: NetworkSwarmCmd) -> Result<()> {
+        self.handle_network_cmd(cmd)
+    }
+
+    pub fn verif_try_recv_local_cmd(&mut self) -> Option<LocalSwarmCmd> {
+        self.local_cmd_receiver.try_recv().ok()
+    }
+
+    pub fn verif_try_recv_network_cmd(&mut self) -> Option<NetworkSwarmCmd> {
+        self.network_cmd_receiver.try_recv().ok()
+    }
+
+    pub fn verif_store_mut(&mut self) -> &mut UnifiedRecordStore {
+        self.swarm.behaviour_mut().kademlia.store_mut()
+    }
+
+    pub fn verif_fetcher_queued(&self) -> Vec<(RecordKey, RecordType, PeerId)> {
+        self.replication_fetcher.verif_queued()
+    }
+
+    pub fn verif_fetcher_in_flight(&self) -> Vec<(RecordKey, RecordType, PeerId)> {
+        self.replication_fetcher.verif_in_flight()
+    }
+
+    /// Insert a peer into the routing table the way the identify handler does after a successful dial.
+    pub fn verif_add_peer(&mut self, peer: PeerId, addr: Multiaddr) -> bool {
+        let update = self
+            .swarm
+            .behaviour_mut()
+            .kademlia
+            .add_address(&peer, addr.clone());
+        let added = matches!(update, kad::RoutingUpdate::Success);
+        if added {
+            self.peers_in_rt = self.peers_in_rt.saturating_add(1);
+        }
+        added
+    }
+
+    pub fn verif_remove_peer(&mut self, peer: &PeerId) -> bool {
+        let removed = self.swarm.behaviour_mut().kademlia.remove_peer(peer).is_some();
+        if removed {
+            self.peers_in_rt = self.peers_in_rt.saturating_sub(1);
+        }
+        removed
+    }
+
+    pub fn verif_closest_k_local_peers(&mut self) -> Vec<PeerId> {
+        self.get_closest_k_value_local_peers()
+    }
+
+    pub fn verif_replicate_candidates(&mut self, target: &NetworkAddress) -> Vec<PeerId> {
+        self.get_replicate_candidates(target)
+    }
+
+    pub fn verif_pending_get_record(&self) -> Vec<VerifPendingGet> {
+        let mut all: Vec<_> = self
+            .pending_get_record
+            .iter()
+            .map(|(id, (key, senders, result_map, _cfg))| VerifPendingGet {
+                query_id: *id,
+                key: key.clone(),
+                waiting_callers: senders.len(),
+                versions: result_map.len(),
+            })
+            .collect();
+        all.sort_by_key(|p| format!("{:?}", p.query_id));
+        all
+    }
+
+    /// What the `set_farthest_record_interval` tick of `run` does once it has computed a distance.
+    pub fn verif_set_responsible_range(&mut self, distance: U256) {
+        self.swarm
+            .behaviour_mut()
+            .kademlia
+            .store_mut()
+            .set_distance_range(distance);
+        self.replication_fetcher
+            .set_replication_distance_range(distance);
+    }
+
+    /// Shift every stored `Instant` deadline of the driver into the past by `d`:
+    /// observationally the same as the clock having advanced by `d`.
+    pub fn verif_age(&mut self, d: Duration) {
+        if let Some(t) = self.last_replication {
+            self.last_replication = t.checked_sub(d).or(Some(t));
+        }
+        for (_peer, deadline) in self.replication_targets.iter_mut() {
+            if let Some(t) = deadline.checked_sub(d) {
+                *deadline = t;
+            }
+        }
+        self.replication_fetcher.verif_age(d);
+    }
+
+    pub fn verif_hard_disk_write_error(&self) -> usize {
+        self.hard_disk_write_error
+    }
+
+    pub fn verif_self_peer_id(&self) -> PeerId {
+        self.self_peer_id
+    }
+}
